@@ -509,7 +509,9 @@ func newCA(max uint64, tags ...string) (*caSys, error) {
 			TTLInterval:     time.Hour,
 		},
 	}
-	cas, err := store.VerifNewCAStoreManualDrain(cfg, tally.NoopScope, clk)
+	var cas *store.CAStore
+	// real constructor; its workers are stopped again inside (outside the scheduler)
+	vrt.Uncontrolled(func() { cas, err = store.VerifNewCAStoreManualDrain(cfg, tally.NoopScope, clk) })
 	if err != nil {
 		os.RemoveAll(dir)
 		return nil, err
